@@ -647,6 +647,7 @@ static int32_t tls13WriteServerKeyShare(ssl_t *ssl,
         rc = tls13ServerChooseHelloRetryRequestGroup(ssl, &namedGroup);
         if (rc < 0)
         {
+            psDynBufUninit(&keyShareBuf);
             return rc;
         }
     }
@@ -664,6 +665,7 @@ static int32_t tls13WriteServerKeyShare(ssl_t *ssl,
         rc = tls13GenerateEphemeralKeys(ssl);
         if (rc < 0)
         {
+            psDynBufUninit(&keyShareBuf);
             return rc;
         }
 
@@ -680,6 +682,7 @@ static int32_t tls13WriteServerKeyShare(ssl_t *ssl,
                 &pubValLen);
         if (rc < 0)
         {
+            psDynBufUninit(&keyShareBuf);
             return rc;
         }
 
@@ -894,6 +897,10 @@ int32_t tls13WritePreSharedKey(ssl_t *ssl,
     psSize_t idsLen, bindersLen;
     int32_t rc;
 
+    /* So that the common error exit can release all three. */
+    Memset(&idBuf, 0, sizeof(idBuf));
+    Memset(&binderBuf, 0, sizeof(binderBuf));
+
     psTracePrintExtensionCreate(ssl, EXT_PRE_SHARED_KEY);
 
     psDynBufAppendOctets(extBuf, extensionType, 2);
@@ -1013,6 +1020,9 @@ int32_t tls13WritePreSharedKey(ssl_t *ssl,
     return PS_SUCCESS;
 
 out_internal_failure:
+    psDynBufUninit(&idBuf);
+    psDynBufUninit(&binderBuf);
+    psDynBufUninit(&pskBuf);
     ssl->err = SSL_ALERT_INTERNAL_ERROR;
     return MATRIXSSL_ERROR;
 }
@@ -1044,6 +1054,7 @@ int32_t tls13WriteCookie(ssl_t *ssl,
         cookieLen = psGetOutputBlockLength(tls13GetCipherHmacAlg(ssl));
         if (cookieLen < 0)
         { /* errorCode returned for unknown hmac */
+            psDynBufUninit(&cookieBuf);
             return cookieLen;
         }
     }
@@ -1217,6 +1228,8 @@ int32_t tls13WritePskKeyExchangeModes(ssl_t *ssl,
     return PS_SUCCESS;
 
 out_internal_failure:
+    psDynBufUninit(&modesBuf);
+    psDynBufUninit(&buf);
     ssl->err = SSL_ALERT_INTERNAL_ERROR;
     return MATRIXSSL_ERROR;
 }
